@@ -169,7 +169,10 @@ def _p_norm(p: float, critical_pairs: list = []):
                 result += np.abs(ev_x1 + ev_x0 - 2 * ev_z)
             # segment does not cross the x-axis
             else:
-                ev_x1 = np.abs(slope * x1 + b) ** (p + 1) / (np.abs(slope) * (p + 1))
-                ev_x0 = np.abs(slope * x0 + b) ** (p + 1) / (np.abs(slope) * (p + 1))
-                result += np.abs(ev_x1 - ev_x0)
+                # (M**(p+1) - a**(p+1)) / ((p+1) * (M - a)) * (x1 - x0), with a <= M the magnitudes of the
+                # end values; written so that nearly flat segments do not cancel catastrophically
+                a, M = sorted((np.abs(y0), np.abs(y1)))
+                r = a / M
+                ratio = 1.0 if r == 0 else -np.expm1((p + 1) * np.log(r)) / (1.0 - r)
+                result += (x1 - x0) * M ** p * ratio / (p + 1)
     return (result) ** (1.0 / p)
